@@ -1240,6 +1240,8 @@ def main(outfile):
     py2lean_interval.main_interval(os.path.join(os.path.dirname(outfile), 'TranslatedInterval.lean'), write_if_changed)
     import py2lean_vblk                                          # separate module: Circuit._validate_blk (C15)
     py2lean_vblk.main_vblk(os.path.join(os.path.dirname(outfile), 'TranslatedVblk.lean'), write_if_changed)
+    import py2lean_fsmtables                                     # separate module: FSM tables, __init__, _run_cb, _send_events, _event (C03)
+    py2lean_fsmtables.main_fsmtables(os.path.join(os.path.dirname(outfile), 'TranslatedFsmTables.lean'), write_if_changed)
 
 if __name__ == '__main__':
     main(sys.argv[1])
